@@ -23,6 +23,8 @@ Implementation: Dataclass with validation and defaults, heuristic-based SRP dete
 from dataclasses import dataclass, field
 from typing import Any
 
+from src.core.linter_utils import require_number
+
 # Default SRP threshold constants
 DEFAULT_MAX_METHODS_PER_CLASS = 7
 DEFAULT_MAX_LOC_PER_CLASS = 200
@@ -43,6 +45,8 @@ class SRPConfig:
 
     def __post_init__(self) -> None:
         """Validate configuration values."""
+        require_number("max_methods", self.max_methods)
+        require_number("max_loc", self.max_loc)
         if self.max_methods <= 0:
             raise ValueError(f"max_methods must be positive, got {self.max_methods}")
         if self.max_loc <= 0:
